@@ -17,6 +17,7 @@ type crashOpts struct {
 	ImgCap     int
 	SparseRead bool // reads of never-written buckets (sparse mode creates files on read)
 	Merge      bool // RAM modes: Merge calls between transactions (no lists / positional sorted-set removals then)
+	IOFail     bool // RAM modes: some commits fail on an injected write error (whole or partial write of one of their records)
 }
 
 // runCrashWorkload executes a monitored history and checks every crash image of it.
@@ -69,6 +70,12 @@ func runCrashWorkload(c *CaseCtx, o crashOpts) {
 		run.Class = o.Class
 	}
 	failed, bursts := 0, 0
+	ioFail := o.IOFail && cfg.Mode != 2
+	if ioFail {
+		cr.Inj = &injector{root: run.Dir, rngPick: r.Intn, onlyWrites: true}
+		o.Class += "-iofault"
+		run.Class = o.Class
+	}
 	step := func(t TxSpec, expectFail bool) {
 		cur := len(cr.States) - 1
 		cr.SetStep(cur, true, "tx")
@@ -78,8 +85,44 @@ func runCrashWorkload(c *CaseCtx, o crashOpts) {
 	}
 	for i := 0; i < o.NTx && !run.Dead && !c.Violated(); i++ {
 		g.M = run.M
+		if run.WriteDead {
+			// a commit was refused after an earlier injected fault: no effect (checked by the images of that step too),
+			// and a reopen cures it
+			cr.SetStep(len(cr.States)-1, false, "reopen")
+			if !run.CheckObs("after-refused-commit") || !run.Reopen() || !run.CheckObs("after-refused-commit+reopen") {
+				return
+			}
+		}
 		x := r.Intn(100)
 		switch {
+		case ioFail && x >= 78 && x < 90:
+			// the n-th record write of this commit fails (nothing written, or a torn prefix left behind): Commit must
+			// report it, and neither the images taken while it fails nor any later image may show one of its records
+			t := g.WriteTx(true)
+			cur := len(cr.States) - 1
+			cr.SetStep(cur, true, "tx-iofault")
+			inj := cr.Inj
+			inj.armed, inj.n, inj.count, inj.fired, inj.partial = true, 1+r.Intn(4), 0, nil, r.Intn(2) == 0
+			wasFault := run.FaultSinceOpen
+			run.FaultSinceOpen = true
+			out := run.Tx(t, false)
+			inj.armed = false
+			if inj.fired == nil {
+				run.FaultSinceOpen = wasFault // fewer record writes than n: an ordinary transaction
+				if out.Err != nil && !wasFault && (t.Mode == "update" || t.Mode == "manual") {
+					run.WriteDead = false
+					c.Violate("commit-error:"+panicClass(out.Err.Error()), o.Class, fmt.Sprintf("transaction %s failed unexpectedly: %v", t.String(), out.Err))
+				}
+			} else {
+				c.Stat("commits_with_injected_write_error", 1)
+				failed++
+				if out.Err == nil && out.Panic == "" {
+					c.Violate("commit-ok-despite-write-error", o.Class, fmt.Sprintf("transaction %s: write #%d of its commit failed (%s off=%d, %d bytes), Commit returned nil", t.String(), inj.n, inj.fired.Path, inj.fired.Off, len(inj.fired.Data)))
+				}
+				run.WriteDead = false // this failure was the injected one
+			}
+			cr.PushModel(run.M, u)
+			cr.SetStep(cur+1, false, "idle")
 		case o.Failed && x < 8:
 			t := g.WriteTx(true)
 			t.Mode = "fnerr"
@@ -170,9 +213,9 @@ func init() {
 				return
 			}
 			runCrashWorkload(c, crashOpts{Modes: []int{0, 0, 1, 2}, NTx: 12 + c.Rng.Intn(25), Failed: true, Burst: c.Case%3 == 0, Reopen: true,
-				Mode: "state", Class: "crash", SparseRead: true, Merge: c.Case%4 == 1})
+				Mode: "state", Class: "crash", SparseRead: true, Merge: c.Case%4 == 1, IOFail: c.Case%4 == 2 || c.Case%8 == 1})
 		},
-		Rule: "case = one monitored workload (all structures in KeyVal mode, KV in KeyOnly/sparse; failing, rolled-back and oversized transactions; bursts of back-to-back transactions; reopen points; FileIO/MMap; SyncEnable on/off); " +
+		Rule: "case = one monitored workload (all structures in KeyVal mode, KV in KeyOnly/sparse; failing, rolled-back and oversized transactions; in 3/8 of the RAM-mode workloads commits that fail on an injected (whole or partial) record write, handle kept; bursts of back-to-back transactions; reopen points; FileIO/MMap; SyncEnable on/off); " +
 			"EVERY file-mutation event of the execution (open, truncate, write, sync, close, remove as reported by the verif hook) is a crash point: the directory as it is just before the event, and for each write every torn prefix at the record-field boundaries, is re-opened with the real Open and fully observed; " +
 			"oracle: recovered observation == model state of the committed prefix, or == that plus the in-flight transaction in full; non-trivial = workload produced >=20 images and rotated; distinct by workload hash",
 		Assumptions: []string{"process crash = page cache survives: the directory content at the crash point is what the next Open sees (verified for MMap: stores through the mapping are visible to read())", "a torn write leaves a prefix of the written bytes", "the verif hook reports every mutation the library makes: audited in this check by running one workload per index mode under strace and matching every mutating system call on the database directory (creating open, pwrite, write, ftruncate, fsync/msync, unlink, rename, link) against the hook events (3 audit runs quick, 6 thorough; stores through a mapping have no system call, MMapRWManager.WriteAt is their only site)"},
@@ -194,9 +237,9 @@ func init() {
 		NCases: func(t string) int { return tier(t, 32, 2000) },
 		Run: func(c *CaseCtx) {
 			runCrashWorkload(c, crashOpts{Power: true, Modes: []int{0, 0, 1, 2}, NTx: 10 + c.Rng.Intn(20), Failed: c.Case%2 == 0, Reopen: true,
-				Mode: "state", Class: "power-loss", Merge: c.Case%4 == 1})
+				Mode: "state", Class: "power-loss", Merge: c.Case%4 == 1, IOFail: c.Case%4 == 2 || c.Case%8 == 1})
 		},
-		Rule: "case = one monitored workload with SyncEnable=true (FileIO and MMap; KeyVal, KeyOnly and sparse); a durable shadow keeps, per file, its content at its last completed sync; at EVERY file-mutation event power-loss images are built: " +
+		Rule: "case = one monitored workload with SyncEnable=true (FileIO and MMap; KeyVal, KeyOnly and sparse; in 3/8 of the RAM-mode workloads commits that fail on an injected record write, handle kept); a durable shadow keeps, per file, its content at its last completed sync; at EVERY file-mutation event power-loss images are built: " +
 			"durable-only (never-synced files absent), never-synced files zero-filled, per-file mixes of durable and current content, the last unsynced write torn, an unsynced removal undone; each image is re-opened and fully observed; " +
 			"oracle as C10 (committed prefix, or that plus the in-flight transaction in full); non-trivial = >=20 images and a rotation",
 		Assumptions: []string{"disk model of the property: a file's content after power loss is its content at its last sync, possibly plus any subset/prefix of later writes", "a sync of a file also makes its directory entry durable", "tmpfs makes the real fsync a no-op, which is irrelevant: durability is decided from the event log"},
